@@ -77,6 +77,40 @@ def write_7z(files, method: str = "lzma2", declared=None, folder_declared=None) 
     return _assemble(packed, header)
 
 
+def write_7z_declared(name: str, stream_of: bytes, coder: str, member_size: int, coder_sizes, strip_end: bool = False) -> bytes:
+    """One folder, ONE member `name`, where what the header DECLARES and what the packed stream YIELDS are chosen
+    independently.
+      stream_of    the bytes the packed stream really expands to
+      coder        "copy" | "lzma" | "lzma2" | "bcj+lzma" | "bcj+lzma2"  (BCJ first, then the compressor, as 7-Zip writes)
+      member_size  the size the member is listed with (what the per-member guard sees)
+      coder_sizes  the declared unpack size of every coder of the folder, in coder order
+      strip_end    LZMA2 only: drop the final end-of-stream byte of the packed stream
+    LZMA (LZMA1) streams written by Python's lzma always end with an end marker."""
+    inner = coder.split("+")[-1]
+    packed, cdesc = _coder(inner, stream_of)
+    if strip_end:
+        if inner != "lzma2" or packed[-1:] != b"\x00":
+            raise ValueError("no LZMA2 end byte to strip")
+        packed = packed[:-1]
+    if coder.startswith("bcj+"):
+        coders = num(2) + bytes([0x04]) + b"\x03\x03\x01\x03" + cdesc + num(1) + num(0)    # bind pair: in 0 <- out 1
+    else:
+        coders = num(1) + cdesc
+    if len(coder_sizes) != (2 if coder.startswith("bcj+") else 1):
+        raise ValueError("one declared size per coder")
+    h = b"\x01\x04"
+    h += b"\x06" + num(0) + num(1) + b"\x09" + num(len(packed)) + b"\x00"
+    h += b"\x07\x0b" + num(1) + b"\x00" + coders + b"\x0c" + b"".join(num(n) for n in coder_sizes) + b"\x00"
+    h += b"\x08\x0d" + num(1) + b"\x00" + b"\x00"
+    names = b"\x00" + name.encode("utf-16-le") + b"\x00\x00"
+    h += b"\x05" + num(1) + b"\x11" + num(len(names)) + names + b"\x00" + b"\x00"
+    # the member's size is the last coder size unless substream sizes say otherwise; with one substream the reader
+    # takes the folder's size, so `member_size` must equal coder_sizes[-1]
+    if member_size != coder_sizes[-1]:
+        raise ValueError("with one member per folder its size is the last declared coder size")
+    return _assemble(packed, h)
+
+
 def _bitvec(bits) -> bytes:
     out = bytearray((len(bits) + 7) // 8)
     for i, b in enumerate(bits):
